@@ -353,7 +353,7 @@ impl<C: Autocomplete + Help> SessModel<C> {
                         let body = match (handler_calls.len(), hmode) {
                             (0, _) | (1, HMode::Silent) | (1, HMode::Prompt(_)) => Some(String::new()),
                             (1, HMode::Write(t)) => Some(framed(&conv_lf(t))),
-                            (1, HMode::Script(s)) => Some(framed(&script_out(s))),
+                            (1, HMode::Script(s)) | (1, HMode::ScriptPrompt(s, _)) => Some(framed(&script_out(s))),
                             (1, HMode::ParseErr) => None, // wording of the error line is not C01's / C13's subject
                             _ => None,
                         };
